@@ -77,7 +77,7 @@ def run_real(histories):
             break
         # the worker died inside history `cur`: mark the rest of it skipped, continue after it
         h = histories[cur]
-        if len(h.real) == 0 or h.real[-1] != "abort":
+        if len(h.real) == 0 or h.real[-1] not in ("abort", "hang"):
             # died without having echoed the op (should not happen) or after printing: mark abort
             h.real.append("abort")
         while len(h.real) < len(h.ops):
@@ -92,7 +92,16 @@ def run_real(histories):
 
 def run_model(histories):
     text = "".join(h.text(k) for k, h in enumerate(histories))
-    p = subprocess.run([build.DRIVER], input=text, stdout=subprocess.PIPE, stderr=subprocess.PIPE, text=True,
+    def big_stack():
+        # the model's stepping loop is a structural recursion; a call in which NO channel is active and the position
+        # diverges (ramp with a negative step, finding D4) runs it to its idle fuel of 10^6 steps
+        import resource
+        soft, hard = resource.getrlimit(resource.RLIMIT_STACK)
+        want = 4 << 30
+        if hard != resource.RLIM_INFINITY:
+            want = min(want, hard)
+        resource.setrlimit(resource.RLIMIT_STACK, (want, hard))
+    p = subprocess.run([build.DRIVER], input=text, stdout=subprocess.PIPE, stderr=subprocess.PIPE, text=True, preexec_fn=big_stack,
                        timeout=3600)
     out = p.stdout.splitlines()
     pos = 0
@@ -125,7 +134,12 @@ def fields(obs):
     """status, getters(list of int)|None, alloc, untouched, data(list), stale"""
     parts = obs.split(" | ")
     d = {"status": parts[0], "g": None, "a": None, "u": None, "d": None, "s": None, "site": None}
-    if parts[0].split(" ")[0] in ("panic", "abort"):
+    if parts[0] == "hang":
+        # the call did not return (worker watchdog): a failure to complete; compared with the model's crash predictions as a
+        # panic (the model's only diverging case is the idle stepping loop, "position diverges")
+        d["site"] = "hang"
+        d["status"] = "panic"
+    elif parts[0].split(" ")[0] in ("panic", "abort"):
         d["site"] = parts[0]
         d["status"] = parts[0].split(" ")[0]
     for p in parts[1:]:
